@@ -5,3 +5,33 @@
 
 // owner: group a9. `super::super` is the repository module `estimator`.
 use super::super::*;
+
+// ---- read-only accessors (C42/C43). `link_delay` mirrors the #[cfg(test)]-only method of the module. ----
+pub fn link_delay<S: KalmanStorageBase>(st: &EstimatorState<S>, id: LinkId) -> Result<UncertainValue, AlgoError> {
+    let link_info = st.get_link_info(id)?;
+    Ok(UncertainValue {
+        value: st.state[(link_info.index, 0)],
+        uncertainty: st.uncertainty[(link_info.index, link_info.index)].sqrt(),
+    })
+}
+
+pub fn time<S: KalmanStorageBase>(st: &EstimatorState<S>) -> Timestamp<TAI> {
+    st.time
+}
+
+/// (state rows, internal clocks, external clocks, links)
+pub fn dims<S: KalmanStorageBase>(st: &EstimatorState<S>) -> (usize, usize, usize, usize) {
+    (st.state.rows(), st.clock_info.0.len(), st.external_clocks.0.len(), st.link_info.0.len())
+}
+
+pub fn for_each_internal_clock<S: KalmanStorageBase>(st: &EstimatorState<S>, mut f: impl FnMut(ClockId)) {
+    for info in st.clock_info.iter() {
+        f(info.id);
+    }
+}
+
+pub fn for_each_link<S: KalmanStorageBase>(st: &EstimatorState<S>, mut f: impl FnMut(LinkId)) {
+    for info in st.link_info.iter() {
+        f(info.id);
+    }
+}
